@@ -113,3 +113,41 @@
 ; message (its code, its status strings). Uninterpreted: obligations hold for every interpretation,
 ; in particular the injective one.
 (declare-fun viewId (Int Int Int) Int)
+
+; ---- recursive validity (C02: "accepted by the parser ==> valid all the way down")
+; Layout of a list / message value ending at e (from the statement: body, table, varint(dataSize),
+; varint(tableSize), type code), in the same terms the table decoders' contracts use.
+(define-fun tM1 ((M (Array Int Int)) (lo Int) (e Int)) Int (sizeFieldSize M lo (- e 1)))
+(define-fun tTS ((M (Array Int Int)) (lo Int) (e Int)) Int (varintVal M (- e 1) (tM1 M lo e)))
+(define-fun tM2 ((M (Array Int Int)) (lo Int) (e Int)) Int (sizeFieldSize M lo (- (- e 1) (tM1 M lo e))))
+(define-fun tDS ((M (Array Int Int)) (lo Int) (e Int)) Int (varintVal M (- (- e 1) (tM1 M lo e)) (tM2 M lo e)))
+(define-fun tTab ((M (Array Int Int)) (lo Int) (e Int)) Int (- (- (- (- e 1) (tM1 M lo e)) (tM2 M lo e)) (tTS M lo e)))
+(define-fun tDat ((M (Array Int Int)) (lo Int) (e Int)) Int (- (tTab M lo e) (tDS M lo e)))
+; element i of a list: [lElemLo, lElemHi) when lElemOK (a non-empty range inside the data)
+(define-fun lN ((M (Array Int Int)) (lo Int) (e Int)) Int (div (tTS M lo e) (ite (= (select M (- e 1)) 71) 4 2)))
+(define-fun lEndRel ((M (Array Int Int)) (lo Int) (e Int) (i Int)) Int
+  (ite (= (select M (- e 1)) 71) (listBigEnd M (tTab M lo e) i) (listSmallEnd M (tTab M lo e) i)))
+(define-fun lStartRel ((M (Array Int Int)) (lo Int) (e Int) (i Int)) Int (ite (= i 0) 0 (lEndRel M lo e (- i 1))))
+(define-fun lElemOK ((M (Array Int Int)) (lo Int) (e Int) (i Int)) Bool
+  (and (< (lStartRel M lo e i) (lEndRel M lo e i)) (<= (lEndRel M lo e i) (tDS M lo e))))
+(define-fun lElemLo ((M (Array Int Int)) (lo Int) (e Int) (i Int)) Int (+ (tDat M lo e) (lStartRel M lo e i)))
+(define-fun lElemHi ((M (Array Int Int)) (lo Int) (e Int) (i Int)) Int (+ (tDat M lo e) (lEndRel M lo e i)))
+; field i of a message: the prefix of the data that ends at the field's offset
+(define-fun mN ((M (Array Int Int)) (lo Int) (e Int)) Int (div (tTS M lo e) (ite (= (select M (- e 1)) 81) 6 3)))
+(define-fun mOff ((M (Array Int Int)) (lo Int) (e Int) (i Int)) Int
+  (ite (= (select M (- e 1)) 81) (bigOff M (tTab M lo e) i) (smallOff M (tTab M lo e) i)))
+(define-fun mFieldOK ((M (Array Int Int)) (lo Int) (e Int) (i Int)) Bool
+  (and (< 0 (mOff M lo e i)) (<= (mOff M lo e i) (tDS M lo e))))
+(define-fun mFieldHi ((M (Array Int Int)) (lo Int) (e Int) (i Int)) Int (+ (tDat M lo e) (mOff M lo e i)))
+; validV(M, lo, e): a valid value ends at e inside [lo, e). Only introduction rules are given (the
+; least predicate closed under them is the meaning); a proof of validV has to establish the premises.
+; lElemValid / mFieldValid wrap "element i / field i is absent or valid" in an uninterpreted
+; predicate with a definitional axiom, so that quantified clauses over i have a clean trigger.
+(declare-fun validV ((Array Int Int) Int Int) Bool)
+(declare-fun lElemValid ((Array Int Int) Int Int Int) Bool)
+(declare-fun mFieldValid ((Array Int Int) Int Int Int) Bool)
+(assert (forall ((M (Array Int Int)) (lo Int) (e Int) (i Int)) (! (= (lElemValid M lo e i) (=> (lElemOK M lo e i) (validV M (lElemLo M lo e i) (lElemHi M lo e i)))) :pattern ((lElemValid M lo e i)))))
+(assert (forall ((M (Array Int Int)) (lo Int) (e Int) (i Int)) (! (= (mFieldValid M lo e i) (=> (mFieldOK M lo e i) (validV M (tDat M lo e) (mFieldHi M lo e i)))) :pattern ((mFieldValid M lo e i)))))
+(assert (forall ((M (Array Int Int)) (lo Int) (e Int)) (! (=> (and (> (valueSize M lo e) 0) (not (= (select M (- e 1)) 70)) (not (= (select M (- e 1)) 71)) (not (= (select M (- e 1)) 80)) (not (= (select M (- e 1)) 81))) (validV M lo e)) :pattern ((validV M lo e)))))
+(assert (forall ((M (Array Int Int)) (lo Int) (e Int)) (! (=> (and (> (valueSize M lo e) 0) (or (= (select M (- e 1)) 70) (= (select M (- e 1)) 71)) (forall ((i Int)) (! (=> (and (<= 0 i) (< i (lN M lo e))) (lElemValid M lo e i)) :pattern ((lElemValid M lo e i))))) (validV M lo e)) :pattern ((validV M lo e)))))
+(assert (forall ((M (Array Int Int)) (lo Int) (e Int)) (! (=> (and (> (valueSize M lo e) 0) (or (= (select M (- e 1)) 80) (= (select M (- e 1)) 81)) (forall ((i Int)) (! (=> (and (<= 0 i) (< i (mN M lo e))) (mFieldValid M lo e i)) :pattern ((mFieldValid M lo e i))))) (validV M lo e)) :pattern ((validV M lo e)))))
